@@ -23,7 +23,7 @@ DoProcess(d) == LET r == ProcessF(s, d) IN
   /\ s' = r.s /\ n' = n + 1
   /\ processed' = processed \cup {d.id}
   /\ gone' = gone \cup Insts(r.closed) \cup Insts(r.discarded)
-  /\ last' = [op |-> "process", d |-> d, res |-> r.res, closed |-> r.closed, before |-> s]
+  /\ last' = [op |-> "process", d |-> d, res |-> r.res, closed |-> r.closed, before |-> s, warn |-> r.warn]
 DoClose(d) == LET r == CloseF(s, d) IN
   /\ s' = r.s /\ n' = n + 1 /\ UNCHANGED processed
   /\ gone' = gone \cup Insts(r.closed)
@@ -48,5 +48,13 @@ ClosedWereOpenA(L, t) ==
 RejectedA(L, t) == (L.op = "process" /\ L.res \in {"nopts", "dup", "vsserr"}) => OpenView(t) = OpenView(L.before)
 NoPtsA(L) == (L.op = "process" /\ ~L.d.haspts) => L.res = "nopts"
 TwiceA(L, t) == (L.op = "process" /\ L.d.haspts /\ L.res \in {"ok", "dup"}) => ProcessF(t, L.d).res = "dup"
-CallClauses == [][ /\ ClosedWereOpenA(last', s') /\ RejectedA(last', s') /\ NoPtsA(last') /\ TwiceA(last', s') ]_vars
+\* sanity of the validation verdict (X03, beyond C10): who can be warned about, and the two anchor cases
+WarnA(L) == L.op = "process" =>
+  /\ (L.warn = "invalid" => L.d.type = Resumption)
+  /\ (L.warn = "missingout" => L.d.type = 17 \/ L.d.type \in ValidatedEnds)
+  /\ (L.res # "ok" => L.warn = "none")
+  /\ ((L.res = "ok" /\ (L.d.type = 17 \/ L.d.type \in ValidatedEnds) /\ Len(L.before.open) = 0) => L.warn = "missingout")
+  /\ ((L.res = "ok" /\ L.d.type \in ValidatedEnds /\ Len(L.closed) > 0
+        /\ L.closed[Len(L.closed)].d.type = L.d.type - 1 /\ L.closed[Len(L.closed)].d.eid = L.d.eid) => L.warn = "none")
+CallClauses == [][ /\ ClosedWereOpenA(last', s') /\ RejectedA(last', s') /\ NoPtsA(last') /\ TwiceA(last', s') /\ WarnA(last') ]_vars
 =============================================================================
